@@ -783,3 +783,182 @@ TWINS += [
             '    _HEADER_STATES = (State.PART,)\n\n    def last_newline(self, data: bytes) -> int:'),
     ]},
 ]
+
+# ---------------------------------------------------------------------------
+# round 4: R1.8 (the opening line break of a part body is consumed exactly once) and R1.9 (payloads are collected as
+# received and joined with nothing in between)
+
+_DS_BRANCH = '''        elif self.state == State.DATA_START:
+            data, del_index, more_data = self._parse_data(self.buffer, start=True)
+            del self.buffer[:del_index]
+            event = Data(data=data, more_data=more_data)
+            if more_data:
+                self.state = State.DATA
+'''
+_D_BRANCH = '''
+        elif self.state == State.DATA:
+            data, del_index, more_data = self._parse_data(self.buffer, start=False)
+            del self.buffer[:del_index]
+            if data or not more_data:
+                event = Data(data=data, more_data=more_data)
+'''
+_DS_TAIL = '''            event = Data(data=data, more_data=more_data)
+            if more_data:
+                self.state = State.DATA
+
+        elif self.state == State.DATA:'''
+_MERGED = '''        elif self.state in (State.DATA_START, State.DATA):
+            first = self.state is State.DATA_START
+            data, del_index, more_data = self._parse_data(self.buffer, start=first)
+            del self.buffer[:del_index]
+            if first:
+                event = Data(data=data, more_data=more_data)
+                if %s:
+                    self.state = State.DATA
+            elif data or not more_data:
+                event = Data(data=data, more_data=more_data)
+'''
+_FIRST_CHUNK_CALL = '''        elif self.state == State.DATA_START:
+            event = self._first_chunk()
+'''
+_FIRST_CHUNK_METHOD = '''    def _enter(self, state: State) -> None:
+        self.state = state
+
+    def _first_chunk(self) -> Event:
+        payload, used, unfinished = self._parse_data(self.buffer, start=True)
+        del self.buffer[:used]
+        if %s:
+            self._enter(State.DATA)
+        return Data(data=payload, more_data=unfinished)
+
+    def _parse_headers(self, data: bytes) -> Headers:'''
+_WRITE_AND_JOIN = '''                    _write(event.data)
+                    if not event.more_data:
+                        if isinstance(current_part, Field):
+                            value = b"".join(container).decode(
+                                self.get_part_charset(current_part.headers), "replace"
+                            )
+'''
+_JOIN = '''                            value = b"".join(container).decode(
+                                self.get_part_charset(current_part.headers), "replace"
+                            )
+'''
+
+MUTANTS += [
+    {"name": 'first-chunk-leaves-the-start-state-only-with-payload', "expect": 'R1.8', "edits": [
+        (M, _DS_TAIL, _DS_TAIL.replace("            if more_data:\n", "            if more_data and data:\n")),
+    ]},
+    {"name": 'empty-first-event-suppressed-by-an-early-return', "expect": 'R1.8', "edits": [
+        (M, _DS_TAIL, "            if more_data and not data:\n                return NEED_DATA\n" + _DS_TAIL),
+    ]},
+    {"name": 'line-break-kept-in-the-buffer-but-state-moves-on', "expect": 'R1.8', "edits": [
+        (M, _DS_BRANCH, _DS_BRANCH.replace("            del self.buffer[:del_index]\n", "            if data or not more_data:\n                del self.buffer[:del_index]\n")),
+    ]},
+    {"name": 'merged-data-branch-leaves-the-start-state-only-with-payload', "expect": 'R1.8', "edits": [
+        (M, _DS_BRANCH + _D_BRANCH, _MERGED % "more_data and data"),
+    ]},
+    {"name": 'first-chunk-helper-enters-data-only-with-payload', "expect": 'R1.8', "edits": [
+        (M, _DS_BRANCH, _FIRST_CHUNK_CALL),
+        (M, "    def _parse_headers(self, data: bytes) -> Headers:", _FIRST_CHUNK_METHOD % "unfinished and len(payload) > 0"),
+    ]},
+    {"name": 'transition-read-back-from-the-event-and-its-payload', "expect": 'R1.8', "edits": [
+        (M, _DS_TAIL, _DS_TAIL.replace("            if more_data:\n", "            if event.more_data and event.data:\n")),
+    ]},
+    {"name": 'field-pieces-decoded-as-they-arrive', "expect": 'R1.9', "edits": [
+        (F, _WRITE_AND_JOIN, '''                    if isinstance(current_part, Field):
+                        text = event.data.decode(
+                            self.get_part_charset(current_part.headers), "replace"
+                        )
+                        _write(text)
+                    else:
+                        _write(event.data)
+                    if not event.more_data:
+                        if isinstance(current_part, Field):
+                            value = "".join(container)
+'''),
+    ]},
+    {"name": 'line-ends-normalised-piece-by-piece', "expect": 'R1.9', "edits": [
+        (F, "                    _write(event.data)\n", '                    _write(event.data.replace(b"\\r\\n", b"\\n") if field_size is not None else event.data)\n'),
+    ]},
+    {"name": 'pieces-decoded-one-by-one-when-joined', "expect": 'R1.9', "edits": [
+        (F, _JOIN, '''                            charset = self.get_part_charset(current_part.headers)
+                            value = "".join(
+                                piece.decode(charset, "replace") for piece in container
+                            )
+'''),
+    ]},
+    {"name": 'pieces-joined-with-a-separator', "expect": 'R1.9', "edits": [
+        (F, '                            value = b"".join(container).decode(', '                            value = b" ".join(container).decode('),
+    ]},
+    {"name": 'field-text-grown-piece-by-piece', "expect": 'R1.9', "edits": [
+        (F, "                    container = []\n", "                    container = []\n                    text = \"\"\n"),
+        (F, "                    _write(event.data)\n", "                    _write(event.data)\n                    if isinstance(current_part, Field):\n                        text += event.data.decode(\n                            self.get_part_charset(current_part.headers), \"replace\"\n                        )\n"),
+        (F, _JOIN, "                            value = text\n"),
+    ]},
+    {"name": 'collect-helper-strips-each-piece', "expect": 'R1.9', "edits": [
+        (F, "                    _write(event.data)\n", "                    self._collect(_write, event.data)\n"),
+        (F, "    def fail(self, message: str) -> te.NoReturn:", "    def _collect(self, put: t.Callable[[bytes], t.Any], piece: bytes) -> None:\n        put(piece.rstrip(b\"\\r\\n\"))\n\n    def fail(self, message: str) -> te.NoReturn:"),
+    ]},
+]
+
+TWINS += [
+    {"name": 'data-branches-merged-on-a-first-flag', "edits": [
+        (M, _DS_BRANCH + _D_BRANCH, _MERGED % "more_data"),
+    ]},
+    {"name": 'nothing-consumed-while-nothing-to-emit', "edits": [
+        (M, _DS_BRANCH, '''        elif self.state == State.DATA_START:
+            data, del_index, more_data = self._parse_data(self.buffer, start=True)
+            if data or not more_data:
+                del self.buffer[:del_index]
+                event = Data(data=data, more_data=more_data)
+                if more_data:
+                    self.state = State.DATA
+'''),
+    ]},
+    {"name": 'first-chunk-in-a-helper-with-a-state-setter', "edits": [
+        (M, _DS_BRANCH, _FIRST_CHUNK_CALL),
+        (M, "    def _parse_headers(self, data: bytes) -> Headers:", _FIRST_CHUNK_METHOD % "unfinished"),
+    ]},
+    {"name": 'finished-part-returns-early-before-the-transition', "edits": [
+        (M, _DS_TAIL, '''            event = Data(data=data, more_data=more_data)
+            if not more_data:
+                return event
+            self.state = State.DATA
+
+        elif self.state == State.DATA:'''),
+    ]},
+    {"name": 'transition-on-a-flag-spelled-with-bool-and-is-true', "edits": [
+        (M, _DS_TAIL, _DS_TAIL.replace("            if more_data:\n", "            unfinished = bool(more_data)\n            if unfinished is True:\n")),
+    ]},
+    {"name": 'splitter-result-kept-as-a-tuple', "edits": [
+        (M, _DS_BRANCH, '''        elif self.state == State.DATA_START:
+            split = self._parse_data(self.buffer, start=True)
+            del self.buffer[: split[1]]
+            event = Data(data=split[0], more_data=split[2])
+            if split[2]:
+                self.state = State.DATA
+'''),
+    ]},
+    {"name": 'transition-read-back-from-the-event', "edits": [
+        (M, _DS_TAIL, _DS_TAIL.replace("            if more_data:\n", "            if event.more_data:\n")),
+    ]},
+    {"name": 'payload-through-a-local-and-a-bytes-copy', "edits": [
+        (F, "                        field_size += len(event.data)\n", "                        field_size += len(bytes(event.data))\n"),
+        (F, "                    _write(event.data)\n", "                    piece = event.data\n                    _write(bytes(piece))\n"),
+    ]},
+    {"name": 'collected-by-the-container-method-per-kind', "edits": [
+        (F, "                    _write(event.data)\n", "                    if isinstance(current_part, Field):\n                        t.cast(\"list[bytes]\", container).append(event.data)\n                    else:\n                        t.cast(t.IO[bytes], container).write(event.data)\n"),
+    ]},
+    {"name": 'pieces-joined-through-a-generator-and-a-named-empty-separator', "edits": [
+        (F, '                            value = b"".join(container).decode(', '                            value = _NOTHING.join(bytes(piece) for piece in container).decode('),
+        (F, "class MultiPartParser:\n", "_NOTHING = b\"\"\n\n\nclass MultiPartParser:\n"),
+    ]},
+    {"name": 'collected-through-a-helper-that-appends', "edits": [
+        (F, "                    _write(event.data)\n", "                    self._collect(_write, event.data)\n"),
+        (F, "    def fail(self, message: str) -> te.NoReturn:", "    def _collect(self, put: t.Callable[[bytes], t.Any], piece: bytes) -> None:\n        put(piece)\n\n    def fail(self, message: str) -> te.NoReturn:"),
+    ]},
+    {"name": 'data-event-handled-in-a-helper-given-the-event', "edits": [
+        (F, "                    _write(event.data)\n", "                    self._take(_write, event)\n"),
+        (F, "    def fail(self, message: str) -> te.NoReturn:", "    def _take(self, put: t.Callable[[bytes], t.Any], ev: Data) -> None:\n        put(ev.data)\n\n    def fail(self, message: str) -> te.NoReturn:"),
+    ]},
+]
